@@ -10,7 +10,7 @@ from .register import Register, NamedQubit
 from .gate import GateStatement
 from .gatedef import GateDefinition, AbstractGate
 from .circuit import Circuit, normalize_native_gates
-from .parameter import Parameter
+from .parameter import Parameter, AnnotatedValue
 from .block import BlockStatement, LoopStatement, UnscheduledBlockStatement
 from .branch import BranchStatement, CaseStatement
 from .algorithm.visitor import Visitor
@@ -211,6 +211,10 @@ class Builder:
                     raise JaqalError(
                         f"Cannot map {src_name} to {name}, {src_name} does not exist"
                     )
+                if not isinstance(src, (Register, Parameter)):
+                    raise JaqalError(
+                        f"Cannot map {src_name} to {name}, {src_name} is not a register"
+                    )
         if len(args) == 2:
             # Mapping a whole register or alias onto this alias
             name, src_name = args
@@ -361,7 +365,10 @@ class Builder:
         identifier, index = sexpression.args
         built_identifier = self.build(identifier, context, gate_context)
         built_index = as_integer(self.build(index, context, gate_context))
-        # If built_identifier is the wrong type it will raise its own JaqalError, or at least it should.
+        if not isinstance(built_identifier, (Register, Parameter)):
+            raise JaqalError(f"Cannot index {identifier}: it is not a register")
+        if not isinstance(built_index, (int, AnnotatedValue)):
+            raise JaqalError(f"Cannot index {identifier} with {index}")
         return built_identifier[built_index]
 
     def build_usepulses(self, sexpression, context, gate_context):
